@@ -1,6 +1,7 @@
 package sym
 
 import (
+	"go/types"
 	"crypto/sha256"
 	"fmt"
 
@@ -69,8 +70,13 @@ func init() {
 func init() {
 	reg("encoding/json.Marshal", func(m *Machine, fr *frame, a []Value) Value {
 		itf, ok := a[0].(Iface)
+		if ok && itf.T != nil {
+			if _, isStruct := itf.T.Underlying().(*types.Struct); isStruct {
+				return m.jsonMarshalStruct(fr, itf)
+			}
+		}
 		if !ok || itf.T == nil || !isString(itf.T) {
-			panic(unsupported("encoding/json.Marshal of a non-string value"))
+			panic(unsupported("encoding/json.Marshal of a value that is neither a string nor a flat struct"))
 		}
 		inst := m.jsonAppendString()
 		if inst == nil {
